@@ -49,7 +49,9 @@ var (
 	texCmd    = regexp.MustCompile(`(?s)\\begin\{lstlisting\}\n(.*?)\n\\end\{lstlisting\}`)
 	texPar    = regexp.MustCompile(`Parameters:& (.*?) \\\\`)
 	texTag    = regexp.MustCompile(`Tags: & (.*?) \\\\`)
-	bashBlock = regexp.MustCompile(`(?s)proc=\$\(printf '%-32s' "(.*?)"\)\n.*?Executing: .*?"\n  (.*?)\n  echo "\$\(date`)
+	// (structure only - the wording of the echo lines is not part of any property: the block of a task is its proc= line,
+	// an if / else, and in the else branch an announcing echo, the command, a closing echo)
+	bashBlock = regexp.MustCompile(`(?s)proc=\$\(printf '%-32s' "(.*?)"\)\n.*?\nelse\n  echo ".*?"\n  (.*?)\n  echo "\$\(date`)
 )
 
 func parseHTML(s string) []listed {
